@@ -202,7 +202,7 @@ def ld_terms(e, sign=1, out=None, depth=0):
             c = core[0]
             if isinstance(c, ast.Call):
                 last = _last(c)
-                if last in TRANSPARENT_RED or last in ("reshape", "view", "expand", "flatten", "float", "double", "to", "contiguous"):
+                if last in TRANSPARENT_RED or last in ("reshape", "view", "expand", "flatten", "float", "double", "to", "contiguous", "unflatten", "movedim", "moveaxis", "permute", "transpose", "view_as", "reshape_as", "unsqueeze", "squeeze", "clone"):
                     inner = c.args[0] if (c.args and not isinstance(c.func, ast.Attribute)) or (isinstance(c.func, ast.Attribute) and isinstance(c.func.value, ast.Name) and c.func.value.id in ("torch", "torchutils", "F")) else (c.func.value if isinstance(c.func, ast.Attribute) else None)
                     if inner is not None:
                         ld_terms(inner, s2, out, depth + 1)
